@@ -34,6 +34,17 @@ func genDisk(r *rng, index int) *Spec {
 		sp.Timeline = append(sp.Timeline, TLEvent{AtMs: t, Kind: "disk", Host: h, N: lv})
 		script = append(script, fmt.Sprintf("%s=%d@%d", h, lv, t/1000))
 	}
+	// a replica whose usage cannot be measured for a while (no report), while the others move
+	if len(ha) > 1 && r.chance(0.3) {
+		v := ha[1+r.intn(len(ha)-1)]
+		at := 6000 + int64(r.intn(8000))
+		sp.Timeline = append(sp.Timeline, TLEvent{AtMs: at, Kind: "disk", Host: v, N: -1})
+		script = append(script, fmt.Sprintf("%s=unmeasurable@%d", v, at/1000))
+		if r.chance(0.4) {
+			back := at + int64(r.pickInt(15000, 30000))
+			sp.Timeline = append(sp.Timeline, TLEvent{AtMs: back, Kind: "disk", Host: v, N: levels[r.intn(len(levels))]})
+		}
+	}
 	// missing / delayed disk reports, dying replicas
 	if len(ha) > 1 && r.chance(0.35) {
 		v := ha[1+r.intn(len(ha)-1)]
